@@ -5,12 +5,13 @@
 -/
 import AriadneModel.Model.Pipeline
 import AriadneModel.Proofs.Settings
+import AriadneModel.Proofs.SourceLoad
 
 set_option linter.unusedSimpArgs false
 set_option linter.unusedVariables false
 
 namespace Ariadne.C17
-open Ariadne Ariadne.Settings Ariadne.Pipeline
+open Ariadne Ariadne.Settings Ariadne.SourceLoad Ariadne.Pipeline
 
 theorem identCheck_some_iff (env : Env) (n : String) :
     (∃ e, identCheck env n = some e) ↔ validName env n = false := by
@@ -20,14 +21,14 @@ theorem identCheck_eq (env : Env) (n : String) (e : ConfigError) (h : identCheck
     e = .badIdentifier n := by
   unfold identCheck at h; split at h <;> simp_all
 
-theorem parseScalars_missing_type (pre post : List (String × J)) (n : String) (d : List (String × J))
-    (pres : List ScalarData) (hpre : parseScalars pre = .ok pres) (hd : J.lookup "type" d = none) :
-    parseScalars (pre ++ (n, .obj d) :: post) = .error .scalarMissingType := by
+theorem parseScalars_missing_type (pre post : List (String × TV)) (n : String) (d : List (String × TV))
+    (pres : List ScalarData) (hpre : parseScalars pre = .ok pres) (hd : TV.lookup "type" d = none) :
+    parseScalars (pre ++ (n, .table d) :: post) = .error .scalarMissingType := by
   induction pre generalizing pres with
-  | nil => simp [parseScalars, parseScalar, hd, bind, Except.bind]
+  | nil => simp [parseScalars, parseScalar, hd]
   | cons kv pre ih =>
     obtain ⟨k, v⟩ := kv
-    simp only [parseScalars, List.cons_append, bind, Except.bind] at hpre ⊢
+    simp only [parseScalars, List.cons_append] at hpre ⊢
     cases hk : parseScalar k v with
     | error e => simp [hk] at hpre
     | ok sd =>
@@ -35,22 +36,6 @@ theorem parseScalars_missing_type (pre post : List (String × J)) (n : String) (
       cases hr : parseScalars pre with
       | error e => simp [hr] at hpre
       | ok r => simp [ih r hr]
-
-theorem lookup_dictSet_ne (k k' : String) (v : J) (l : Dict) (h : k ≠ k') :
-    J.lookup k (dictSet k' v l) = J.lookup k l := by
-  induction l with
-  | nil => simp [dictSet, J.lookup, h.symm]
-  | cons kv rest ih =>
-    obtain ⟨k2, v2⟩ := kv
-    by_cases he : (k2 == k') = true
-    · have : k2 = k' := by simpa using he
-      subst this
-      simp [dictSet, J.lookup, h.symm]
-    · have hne : k2 ≠ k' := by simpa using he
-      by_cases hk : k2 = k
-      · subst hk
-        simp [dictSet, J.lookup, h]
-      · simp [dictSet, he, J.lookup, hk, ih, hne]
 
 /-- **no_write_before_generate** (must), for ALL inputs: whatever makes `main.client` fail in the
     settings, schema loading, plugin lookup, validity assertion, query loading/validation,
@@ -70,14 +55,14 @@ theorem generate_spec (r : ClientRun) (p : Prepared) :
 theorem prepare_error_cases (r : ClientRun) (ph : Phase) (e : PyErr) (h : prepare r = .error (ph, e)) :
     (∃ ce, (getClientSettings r.env r.cfg).result = .error ce ∧ ph = .settings ∧ e = .config ce) ∨
     (∃ s, (getClientSettings r.env r.cfg).result = .ok s ∧
-      ((loadSchema (s.schemaPath != "") r.schema = .error e ∧ ph = .loadSchema) ∨
-       (∃ sch, loadSchema (s.schemaPath != "") r.schema = .ok sch ∧
-         ((resolvePlugins r.plugins = .error e ∧ ph = .plugins) ∨
-          (resolvePlugins r.plugins = .ok () ∧
+      ((loadSchema s.schemaPath.truthy r.schema = .error e ∧ ph = .loadSchema) ∨
+       (∃ sch, loadSchema s.schemaPath.truthy r.schema = .ok sch ∧
+         ((resolvePlugins s.plugins r.plugins = .error e ∧ ph = .plugins) ∨
+          (resolvePlugins s.plugins r.plugins = .ok () ∧
             ((assertValid (processSchema r.plugins sch) = .error e ∧ ph = .assertValid) ∨
              (assertValid (processSchema r.plugins sch) = .ok () ∧
-               (((s.queriesPath != "") = true ∧ loadQueries r.queries = .error e ∧ ph = .loadQueries) ∨
-                (ph = .addOperation ∧ ((s.queriesPath != "") = true → loadQueries r.queries = .ok ())))))))))) := by
+               ((s.queriesPath.truthy = true ∧ loadQueries r.queries = .error e ∧ ph = .loadQueries) ∨
+                (ph = .addOperation ∧ (s.queriesPath.truthy = true → loadQueries r.queries = .ok ())))))))))) := by
   unfold prepare at h
   simp only [bind, Except.bind, pure, Except.pure, throw, throwThe, MonadExceptOf.throw] at h
   cases h1 : (getClientSettings r.env r.cfg).result with
@@ -88,7 +73,7 @@ theorem prepare_error_cases (r : ClientRun) (ph : Phase) (e : PyErr) (h : prepar
   | ok s =>
     simp only [h1] at h
     refine Or.inr ⟨s, rfl, ?_⟩
-    cases h2 : loadSchema (s.schemaPath != "") r.schema with
+    cases h2 : loadSchema s.schemaPath.truthy r.schema with
     | error e2 =>
       simp only [h2] at h
       injection h with h; injection h with ha hb
@@ -96,7 +81,7 @@ theorem prepare_error_cases (r : ClientRun) (ph : Phase) (e : PyErr) (h : prepar
     | ok sch =>
       simp only [h2] at h
       refine Or.inr ⟨sch, rfl, ?_⟩
-      cases h3 : resolvePlugins r.plugins with
+      cases h3 : resolvePlugins s.plugins r.plugins with
       | error e3 =>
         simp only [h3] at h
         injection h with h; injection h with ha hb
@@ -112,7 +97,7 @@ theorem prepare_error_cases (r : ClientRun) (ph : Phase) (e : PyErr) (h : prepar
         | ok u2 =>
           simp only [h4] at h
           refine Or.inr ⟨rfl, ?_⟩
-          by_cases hq : (s.queriesPath != "") = true
+          by_cases hq : s.queriesPath.truthy = true
           · simp only [hq, if_true] at h
             cases h5 : loadQueries r.queries with
             | error e5 =>
@@ -121,14 +106,14 @@ theorem prepare_error_cases (r : ClientRun) (ph : Phase) (e : PyErr) (h : prepar
               exact Or.inl ⟨hq, by rw [hb], ha.symm⟩
             | ok u3 =>
               simp only [h5] at h
-              cases h6 : addOperations s.asyncClient r.queries.ops [] with
+              cases h6 : addOperations s.asyncClient.truthy r.queries.ops [] with
               | error e6 =>
                 simp only [h6] at h
                 injection h with h; injection h with ha hb
                 exact Or.inr ⟨ha.symm, fun _ => rfl⟩
               | ok fs => simp [h6] at h
           · simp only [hq] at h
-            cases h6 : addOperations s.asyncClient [] [] with
+            cases h6 : addOperations s.asyncClient.truthy [] [] with
             | error e6 =>
               simp only [h6] at h
               injection h with h; injection h with ha hb
@@ -137,20 +122,20 @@ theorem prepare_error_cases (r : ClientRun) (ph : Phase) (e : PyErr) (h : prepar
 
 /-- inversion of a successful `prepare`: every phase before `generate` succeeded -/
 theorem prepare_ok_cases (r : ClientRun) (p : Prepared) (h : prepare r = .ok p) :
-    ∃ s sch, (getClientSettings r.env r.cfg).result = .ok s ∧ loadSchema (s.schemaPath != "") r.schema = .ok sch ∧
-      resolvePlugins r.plugins = .ok () ∧ assertValid (processSchema r.plugins sch) = .ok () ∧
-      ((s.queriesPath != "") = true → loadQueries r.queries = .ok ()) ∧ p.settings = s := by
+    ∃ s sch, (getClientSettings r.env r.cfg).result = .ok s ∧ loadSchema s.schemaPath.truthy r.schema = .ok sch ∧
+      resolvePlugins s.plugins r.plugins = .ok () ∧ assertValid (processSchema r.plugins sch) = .ok () ∧
+      (s.queriesPath.truthy = true → loadQueries r.queries = .ok ()) ∧ p.settings = s := by
   unfold prepare at h
   simp only [bind, Except.bind, pure, Except.pure, throw, throwThe, MonadExceptOf.throw] at h
   cases h1 : (getClientSettings r.env r.cfg).result with
   | error ce => simp [h1] at h
   | ok s =>
     simp only [h1] at h
-    cases h2 : loadSchema (s.schemaPath != "") r.schema with
+    cases h2 : loadSchema s.schemaPath.truthy r.schema with
     | error e2 => simp [h2] at h
     | ok sch =>
       simp only [h2] at h
-      cases h3 : resolvePlugins r.plugins with
+      cases h3 : resolvePlugins s.plugins r.plugins with
       | error e3 => simp [h3] at h
       | ok u =>
         simp only [h3] at h
@@ -158,21 +143,21 @@ theorem prepare_ok_cases (r : ClientRun) (p : Prepared) (h : prepare r = .ok p) 
         | error e4 => simp [h4] at h
         | ok u2 =>
           simp only [h4] at h
-          refine ⟨s, sch, rfl, h2, rfl, h4, ?_⟩
-          by_cases hq : (s.queriesPath != "") = true
+          refine ⟨s, sch, rfl, h2, h3, h4, ?_⟩
+          by_cases hq : s.queriesPath.truthy = true
           · simp only [hq, if_true] at h
             cases h5 : loadQueries r.queries with
             | error e5 => simp [h5] at h
             | ok u3 =>
               simp only [h5] at h
-              cases h6 : addOperations s.asyncClient r.queries.ops [] with
+              cases h6 : addOperations s.asyncClient.truthy r.queries.ops [] with
               | error e6 => simp [h6] at h
               | ok fs =>
                 simp only [h6] at h
                 injection h with h
                 exact ⟨fun _ => rfl, by rw [← h]⟩
           · simp only [hq] at h
-            cases h6 : addOperations s.asyncClient [] [] with
+            cases h6 : addOperations s.asyncClient.truthy [] [] with
             | error e6 => simp [h6] at h
             | ok fs =>
               simp only [h6] at h
@@ -232,7 +217,7 @@ theorem plannedSteps_clean (env : Env) (s : ClientSettings) (sch : SchemaState) 
   have hall : (plannedSteps env s sch files frags).all (fun st => st.2.2.isNone) = true := by
     unfold plannedSteps
     rcases hf with hf | hf <;> simp only [hf] <;>
-      cases s.enableCustomOperations <;> cases sch.hasQuery <;> cases sch.hasMutation <;>
+      cases s.enableCustomOperations.truthy <;> cases sch.hasQuery <;> cases sch.hasMutation <;>
       simp [List.all_append, List.all_map, Function.comp_def]
   intro st hst
   have := List.all_eq_true.mp hall st hst
@@ -251,35 +236,88 @@ theorem fragmentsStep_of_no_trigger (q : QueriesOracle) (h : trigFragmentGenErro
     | some e => simp [hf] at h
 
 theorem loadSource_ok_iff (s : Source) :
-    loadSource s = .ok () ↔ s.files ≠ [] ∧ ∀ f ∈ s.files, f.2 = true := by
-  unfold loadSource
-  cases hf : s.files.find? (fun f => !f.2) with
-  | some f =>
-    have hm := List.mem_of_find?_eq_some hf
-    have hb := List.find?_some hf
-    simp only [Bool.not_eq_true'] at hb
-    constructor
-    · intro h; cases h
-    · rintro ⟨_, hall⟩; have := hall f hm; simp [hb] at this
-  | none =>
-    have hall : ∀ f ∈ s.files, f.2 = true := by
-      intro f hfm
-      have := List.find?_eq_none.mp hf f hfm
-      simpa using this
-    cases hl : s.files with
-    | nil => simp
-    | cons a l => simp [hl] at hall ⊢; exact hall
+    loadSource s = .ok () ↔ ∃ t, loadText s.parses s.root = .ok t ∧ s.parses t = true := by
+  unfold loadSource loadDocument
+  cases hl : loadText s.parses s.root with
+  | error e => simp
+  | ok t => by_cases hp : s.parses t = true <;> simp [hp]
 
-theorem loadSource_error_typed (s : Source) (e : PyErr) (h : loadSource s = .error e) (hne : s.files ≠ []) :
+/-- when the source loads, every graphql file of it is readable text that parses on its own -/
+theorem loadSource_ok_files (s : Source) (h : loadSource s = .ok ()) :
+    ∀ p c, HasFile s.root p c → ∃ t, c = .text t ∧ s.parses t = true := by
+  obtain ⟨t, ht, _⟩ := (loadSource_ok_iff s).mp h
+  exact (loadText_ok_iff s.parses s.root).mp ⟨t, ht⟩
+
+/-- what a failing load looks like: a named file that does not parse on its own; or an unreadable
+    file; or the concatenation of files that each parse does not parse -/
+theorem loadSource_error_cases (s : Source) (e : PyErr) (h : loadSource s = .error e) :
+    (∃ f t, e = .codegen "InvalidGraphqlSyntax" ("Invalid graphql syntax in file " ++ f) ∧
+        HasFile s.root f (.text t) ∧ s.parses t = false) ∨
+    (∃ cls p, e = .raw cls ∧ HasFile s.root p (.unreadable cls)) ∨
+    (e = .raw "GraphQLSyntaxError" ∧ ∃ t, loadText s.parses s.root = .ok t ∧ s.parses t = false) := by
+  unfold loadSource loadDocument at h
+  cases hl : loadText s.parses s.root with
+  | ok t =>
+    simp only [hl] at h
+    by_cases hp : s.parses t = true
+    · simp [hp] at h
+    · simp only [hp] at h
+      injection h with h
+      subst h
+      exact Or.inr (Or.inr ⟨rfl, t, rfl, by simpa using hp⟩)
+  | error le =>
+    simp only [hl] at h
+    injection h with h
+    subst h
+    have hr := loadText_error_eq s.parses s.root le hl
+    cases le with
+    | invalidSyntax f =>
+      obtain ⟨pre, t, post, hsplit, hbad, _⟩ := readAll_invalid_split s.parses _ f hr
+      left
+      refine ⟨f, t, rfl, ?_, hbad⟩
+      apply (mem_filesRead_iff s.root f (.text t)).mp
+      rw [hsplit]
+      simp
+    | raw cls =>
+      obtain ⟨pc, hm, hu⟩ := readAll_raw s.parses _ cls hr
+      right; left
+      refine ⟨cls, pc.1, rfl, ?_⟩
+      apply (mem_filesRead_iff s.root pc.1 (.unreadable cls)).mp
+      rw [← hu]
+      exact hm
+
+theorem loadSource_error_typed (s : Source) (e : PyErr) (h : loadSource s = .error e)
+    (hread : AllReadable s.root) (hjoin : ∀ t, loadText s.parses s.root = .ok t → s.parses t = true) :
     e.typed = true := by
-  unfold loadSource at h
-  cases hf : s.files.find? (fun f => !f.2) with
-  | some f => simp [hf] at h; subst h; rfl
-  | none =>
-    simp only [hf] at h
-    cases hl : s.files with
-    | nil => exact absurd hl hne
-    | cons a l => simp [hl] at h
+  rcases loadSource_error_cases s e h with ⟨f, t, he, _, _⟩ | ⟨cls, p, he, hf⟩ | ⟨he, t, ht, hp⟩
+  · subst he; rfl
+  · obtain ⟨x, hx⟩ := hread p _ hf
+    cases hx
+  · rw [hjoin t ht] at hp
+    cases hp
+
+/-- **the per-file syntax check**: with every graphql file readable, the source is refused with
+    `InvalidGraphqlSyntax` exactly when SOME file of the tree does not parse on its own — whether or
+    not the concatenation of the files parses -/
+theorem loadSource_refuses_iff (s : Source) (hread : AllReadable s.root) :
+    (∃ m, loadSource s = .error (.codegen "InvalidGraphqlSyntax" m)) ↔
+      ∃ p t, HasFile s.root p (.text t) ∧ s.parses t = false := by
+  constructor
+  · rintro ⟨m, hm⟩
+    rcases loadSource_error_cases s _ hm with ⟨f, t, _, hf, hp⟩ | ⟨cls, p, he, _⟩ | ⟨he, _⟩
+    · exact ⟨f, t, hf, hp⟩
+    · cases he
+    · cases he
+  · rintro ⟨p, t, hf, hp⟩
+    have hbad : ∃ pc ∈ filesRead s.root, ∃ x, pc.2 = .text x ∧ s.parses x = false :=
+      ⟨(p, .text t), (mem_filesRead_iff s.root p _).mpr hf, t, rfl, hp⟩
+    have hr : ∀ pc ∈ filesRead s.root, ∃ x, pc.2 = .text x := by
+      intro pc hm
+      exact hread pc.1 pc.2 ((mem_filesRead_iff s.root pc.1 pc.2).mp hm)
+    obtain ⟨f, hf'⟩ := readAll_refuses s.parses _ hr hbad
+    obtain ⟨f2, hf2⟩ := (loadText_eq s.parses s.root).mpr ⟨f, hf'⟩
+    refine ⟨"Invalid graphql syntax in file " ++ f2, ?_⟩
+    simp [loadSource, loadDocument, hf2, ofLoadErr]
 
 theorem loadSchema_true_source (o : SchemaOracle) (sch : SchemaState) (h : loadSchema true o = .ok sch) :
     loadSource o.src = .ok () := by
@@ -290,7 +328,9 @@ theorem loadSchema_true_source (o : SchemaOracle) (sch : SchemaState) (h : loadS
   | ok u => rfl
 
 theorem loadSchema_error_typed (fromPath : Bool) (o : SchemaOracle) (e : PyErr) (h : loadSchema fromPath o = .error e)
-    (hfiles : fromPath = true → o.src.files ≠ []) (hremote : ∀ c, o.remote ≠ .raw c) (hbuild : o.buildError = none) :
+    (hread : fromPath = true → AllReadable o.src.root)
+    (hjoin : fromPath = true → ∀ t, loadText o.src.parses o.src.root = .ok t → o.src.parses t = true)
+    (hremote : ∀ c, o.remote ≠ .raw c) (hbuild : o.buildError = none) :
     e.typed = true := by
   unfold loadSchema at h
   simp only [bind, Except.bind, pure, Except.pure, throw, throwThe, MonadExceptOf.throw, hbuild] at h
@@ -302,7 +342,7 @@ theorem loadSchema_error_typed (fromPath : Bool) (o : SchemaOracle) (e : PyErr) 
       simp only [hl] at h
       injection h with h
       subst h
-      exact loadSource_error_typed _ _ hl (hfiles rfl)
+      exact loadSource_error_typed _ _ hl (hread rfl) (hjoin rfl)
     | ok u => simp [hl] at h
   | false =>
     simp only [Bool.false_eq_true, if_false] at h
@@ -311,11 +351,50 @@ theorem loadSchema_error_typed (fromPath : Bool) (o : SchemaOracle) (e : PyErr) 
     | introspectionError m => simp [hr] at h; subst h; rfl
     | raw c => exact absurd hr (hremote c)
 
-theorem resolvePlugins_error_typed (p : PluginsOracle) (e : PyErr) (h : resolvePlugins p = .error e) : e.typed = true := by
-  unfold resolvePlugins at h
-  split at h
-  · injection h with h; subst h; rfl
-  · cases h
+/-- the import system answers without raising by itself -/
+def LookupsTame (p : PluginsOracle) : Prop := ∀ s cls, p.lookup s ≠ .raises cls
+
+theorem resolvePlugin_error_typed (look : String → PluginLookup) (s : String) (e : PyErr)
+    (hl : ∀ cls, look s ≠ .raises cls) (h : resolvePlugin look s = .error e) : e.typed = true := by
+  unfold resolvePlugin at h
+  cases hk : look s with
+  | raises cls => exact absurd hk (hl cls)
+  | module => simp [hk] at h
+  | classOk => simp only [hk] at h; split at h <;> first | (injection h with h; subst h; rfl) | cases h
+  | noModule => simp only [hk] at h; split at h <;> first | (injection h with h; subst h; rfl) | cases h
+  | noAttribute => simp only [hk] at h; split at h <;> first | (injection h with h; subst h; rfl) | cases h
+  | notPlugin => simp only [hk] at h; split at h <;> first | (injection h with h; subst h; rfl) | cases h
+
+theorem resolvePluginItems_error_typed (look : String → PluginLookup) (items : List TV) (e : PyErr)
+    (hstr : ∀ x ∈ items, x.isStr = true) (hl : ∀ s cls, look s ≠ .raises cls)
+    (h : resolvePluginItems look items = .error e) : e.typed = true := by
+  induction items with
+  | nil => simp [resolvePluginItems] at h
+  | cons x rest ih =>
+    cases x
+    case str s =>
+      simp only [resolvePluginItems] at h
+      cases hr : resolvePlugin look s with
+      | error e' =>
+        simp only [hr] at h
+        injection h with h
+        subst h
+        exact resolvePlugin_error_typed look s _ (hl s) hr
+      | ok u =>
+        simp only [hr] at h
+        exact ih (fun x hx => hstr x (by simp [hx])) h
+    all_goals
+      have := hstr _ List.mem_cons_self
+      simp [TV.isStr] at this
+
+/-- a plugins option that is a list of strings, an import system that does not raise by itself:
+    every failure of the plugin lookup is a `PluginImportError` -/
+theorem resolvePlugins_error_typed (plugins : TV) (p : PluginsOracle) (e : PyErr)
+    (hlist : ∃ items, plugins = .list items ∧ ∀ x ∈ items, x.isStr = true) (hl : LookupsTame p)
+    (h : resolvePlugins plugins p = .error e) : e.typed = true := by
+  obtain ⟨items, rfl, hstr⟩ := hlist
+  simp only [resolvePlugins, TV.pyIter] at h
+  exact resolvePluginItems_error_typed p.lookup items e hstr hl h
 
 theorem loadQueries_ok (q : QueriesOracle) (h : loadQueries q = .ok ()) :
     loadSource q.src = .ok () ∧ q.validationErrors = [] := by
@@ -329,7 +408,8 @@ theorem loadQueries_ok (q : QueriesOracle) (h : loadQueries q = .ok ()) :
     | nil => exact ⟨rfl, rfl⟩
     | cons a l => simp [hv] at h
 
-theorem loadQueries_error_typed (q : QueriesOracle) (e : PyErr) (h : loadQueries q = .error e) (hne : q.src.files ≠ []) :
+theorem loadQueries_error_typed (q : QueriesOracle) (e : PyErr) (h : loadQueries q = .error e)
+    (hread : AllReadable q.src.root) (hjoin : ∀ t, loadText q.src.parses q.src.root = .ok t → q.src.parses t = true) :
     e.typed = true := by
   unfold loadQueries at h
   simp only [bind, Except.bind, pure, Except.pure, throw, throwThe, MonadExceptOf.throw] at h
@@ -338,11 +418,35 @@ theorem loadQueries_error_typed (q : QueriesOracle) (e : PyErr) (h : loadQueries
     simp only [hl] at h
     injection h with h
     subst h
-    exact loadSource_error_typed _ _ hl hne
+    exact loadSource_error_typed _ _ hl hread hjoin
   | ok u =>
     simp only [hl] at h
     split at h
     · cases h
     · injection h with h; subst h; rfl
+
+/-- the texts read are exactly the contents of the files, so "every file parses" is what `loadText`
+    succeeding means -/
+theorem allFilesParse_of_loadText_ok (s : Source) (t : String) (h : loadText s.parses s.root = .ok t) :
+    allFilesParse s = true := by
+  have hall := (loadText_ok_iff s.parses s.root).mp ⟨t, h⟩
+  unfold allFilesParse Source.files
+  rw [List.all_eq_true]
+  intro pc hm
+  obtain ⟨x, hx, hp⟩ := hall pc.1 pc.2 ((mem_filesRead_iff s.root pc.1 pc.2).mp hm)
+  rw [hx]
+  exact hp
+
+/-- outside the regions of C17-F6 (no graphql file) and C17-F9 (only the concatenation is broken) the
+    second, unguarded `parse` cannot fail -/
+theorem joined_ok_of_not_triggered (s : Source) (hne : s.files.isEmpty = false) (hj : joinedBroken s = false) :
+    ∀ t, loadText s.parses s.root = .ok t → s.parses t = true := by
+  intro t ht
+  have hall := allFilesParse_of_loadText_ok s t ht
+  unfold joinedBroken at hj
+  simp only [hne, hall, ht, Bool.not_false, Bool.true_and] at hj
+  cases hp : s.parses t with
+  | true => rfl
+  | false => simp [hp] at hj
 
 end Ariadne.C17
